@@ -188,6 +188,10 @@ class LoadScheduling:
             return
 
         if self.pending:
+            if node not in self.node2collection:
+                # A replacement node which has not reported its collection
+                # yet: tests are sent as indices into it.
+                return
             # how many nodes do we have?
             num_nodes = len(self.node2pending)
             # if our node goes below a heuristic minimum, fill it out to
